@@ -151,15 +151,8 @@ fn run_case(spec: &Spec, pkind: &str, nkind: &str, texts: &[String], decs: &[Vec
             Err(_) => ("EncPanic".to_string(), "DecPanic".to_string()),
             Ok(Err(_)) => ("EncErr".to_string(), "DecPanic".to_string()),
             Ok(Ok((ids, offs, slices))) => {
-                let sl: Vec<String> = slices
-                    .iter()
-                    .map(|s| match s {
-                        Some(b) => format!("Some {}", coq_bytes(b)),
-                        None => "None".to_string(),
-                    })
-                    .collect();
                 let d = decode_guard(&tk, &ids);
-                (format!("(EncOk {} {} {})", coq_ids(&ids), coq_usizes(&offs), coq_list(&sl)), coq_dec(&d))
+                (format!("(EncOk {} {} {})", coq_ids(&ids), coq_usizes(&offs), coq_unflat(&slices)), coq_dec(&d))
             }
         };
         out.runs.push(format!(
